@@ -97,6 +97,8 @@ func randomCfg(r *rand.Rand, must ...string) world.Cfg {
 	if c.Has("remember") && r.Intn(6) == 0 {
 		c.UseExpire = true // remember module loaded (tokens issued) but expire middleware installed
 	}
+	c.StoreTZ = []int{0, 0, 13 * 3600, -11 * 3600, 5*3600 + 1800}[r.Intn(5)]
+	c.NilSessionState = r.Intn(3) == 0
 	c.LockAfter = 1 + r.Intn(4)
 	c.LockWindow = pickD(r, 5*time.Minute, 30*time.Second, 2*time.Hour)
 	c.LockDuration = pickD(r, 12*time.Hour, time.Minute, 10*time.Second)
